@@ -245,3 +245,11 @@ declare i32 @h(i8)
 attributes #0 = { "var-attr" }
 !0 = !{!"a"}
 !1 = !{!"b"}
+;;; ATOM global/comdat-empty-quoted-name
+$"" = comdat any
+$a = comdat largest
+@g = global i32 0, comdat($"")
+@a = global i32 0, comdat
+define void @f() comdat($"") {
+  ret void
+}
